@@ -129,7 +129,10 @@ func (r balanceRunner) execute(cmd *cobra.Command, args []string) error {
 	if err != nil {
 		return err
 	}
-	partition := r.Multiperiod.Partition(j.Period())
+	partition, err := r.Multiperiod.Partition(j.Period())
+	if err != nil {
+		return err
+	}
 	report := balance.NewReport(reg, partition)
 	procs := []*journal.Processor{
 		check.Check(),
